@@ -173,6 +173,19 @@ CLAIMED.update({
     ),
 })
 
+CLAIMED.update({
+    "C16": dict(
+        category="other", design_ref="DESIGN.md §0.2(10), §5 C16",
+        text="NOT a proof of observational equivalence. Deductive part: both backend families implement every abstract operation of the six shared base "
+             "classes with the same parameters (syntactic obligations), and one representative Mem/SQLite pair per component is verified against one "
+             "contract (in-memory fully; SQLite at glue level: which statement, in which transaction, bound to which values). The statement 'cannot be told "
+             "apart' is decided only by a bounded differential run of the two real backends: seeded random sequences over 41 public operations with a "
+             "controlled clock, every return value / error class and a full read-out compared after every operation. It found and led to the repair of two "
+             "defects; three classes of out-of-protocol histories that still differ are known findings.",
+        technique="shared interface contracts verified for both implementations (AST->z3 VCs; SQL only at glue level) + bounded differential run of the two real backends",
+    ),
+})
+
 NOT_YET = {}
 
 
